@@ -36,6 +36,10 @@ def run(facts, rep, tier):
     rep.rule("R16.3", "counted key = frame DF, counted only under -c, ordered map, printed once per entry", "P")
     eff = Effects(facts)
     reg = Region(facts, eff)
+    # a helper that consults the -f list (`fn wanted(args, df) -> bool`) is part of the per-line decision: inline it
+    from ..mirq import field_reads
+    readers = {r["body"].name for r in field_reads(facts, "Args", "filter")}
+    reg.inline_calls(lambda b: b.name in readers)
     proc, du, cfg = reg.proc, reg.du, reg.cfg
 
     # --- locate the filter decision
@@ -54,8 +58,12 @@ def run(facts, rep, tier):
         t = proc.blocks[bi]["term"]
         if t["k"] == "switch" and bi != s1bb:
             e = expr(du, t["discr"])
+            neg = False
+            while e[0] == "un" and e[1] == "Not":
+                e, neg = e[2], not neg
             if e[0] == "call" and "filter" in show(e):
                 s2 = (bi, t, e)
+                s2neg = neg
     if s2 is None:
         raise Broken("C16 anchor: no decision computed from Args.filter in the per-line region")
     s2bb, s2t, pe = s2
@@ -140,7 +148,9 @@ def run(facts, rep, tier):
                 why = "closure %s does not compare a list element with a captured value" % show(ret)
         else:
             why = "closure returns %s" % show(ret)
-    rep.sample({"rule": "R16.1", "predicate": show(pe)[:200], "true_means_member": member_true})
+    if s2neg and member_true is not None:
+        member_true = not member_true       # the branch tests the negated predicate
+    rep.sample({"rule": "R16.1", "predicate": ("!" if s2neg else "") + show(pe)[:200], "true_means_member": member_true})
     if member_true is None:
         rep.oblige(False, ("filter-form",))
         rep.add(Finding("R16.1", "%s : filter predicate is not `df in list`" % proc.name,
@@ -186,6 +196,20 @@ def run(facts, rep, tier):
             rep.add(Finding("R16.1", "%s : %s not under the -f decision" % (proc.name, callee_name(t)),
                             "%s can run without the -f list being consulted: a filtered-out frame changes table/counters" % callee_name(t),
                             reg.loc(bi)))
+    # without -f nothing is filtered: from the None edge of the Option test every effect site is still reachable
+    none_t = None
+    for v, b in s1t["targets"]:
+        if int(v) == 0:
+            none_t = b
+    if none_t is None and [int(v) for v, _ in s1t["targets"]] == [1]:
+        none_t = s1t["otherwise"]
+    if none_t is not None:
+        r = reg.reach(start=none_t)
+        lost = [callee_name(t) for bi, t in sites if bi not in r]
+        rep.oblige(not lost, ("no-filter-applies-all",))
+        if lost:
+            rep.add(Finding("R16.1", "%s : frames dropped when -f is not given" % proc.name,
+                            "without -f the effects %s are not reachable: every frame is treated as filtered out" % lost, reg.loc(s1bb)))
     # the Some edge of s1 must lead to the predicate (s2 reachable only via the Some edge)
     rep.instances("R16.1", n, floor=3, what="table/counter effect sites under the filter")
 
@@ -357,6 +381,14 @@ def _counter_step(facts, cb, du):
                     e = expr(mdu, s["rv"]["x"]) if s["rv"]["k"] == "use" else None
                     if e and e[0] == "path" and e[1][0] == "bin" and e[1][1] in ("AddWithOverflow", "Add") and e[1][3][0] == "const":
                         inc = e[1][3][1]
+                    elif e and e[0] == "call" and e[1].split("::")[-1] in ("saturating_add", "wrapping_add") and len(e[2]) == 2 and e[2][1][0] == "const":
+                        inc = e[2][1][1]
+            t = blk["term"]
+            if t["k"] == "call" and t["callee"].get("name") in ("saturating_add", "wrapping_add") and t["dest"]["proj"] and \
+                    t["dest"]["proj"][0]["k"] == "deref" and len(t["args"]) == 2:
+                k = expr(mdu, t["args"][1])
+                if k[0] == "const":
+                    inc = k[1]
         if inc is None or post:
             return None
         return {"absent": init, "inc": inc, "key": key, "field": field, "form": "and_modify+or_insert"}
